@@ -212,7 +212,7 @@ def run(rep, tier, seed):
 
     # (e) guard inventory
     spec = json.load(open(os.path.join(core.VERIF, "spec", "analyzer_guards.json")))["sites"]
-    cur = [guards.canonical(e) for e in guards.inventory(tree)]
+    cur = guards.merge_cells([guards.canonical(e) for e in guards.inventory(tree)])
 
     def group(lst):
         # per error code, the multiset of path conditions -- wherever in the file the diagnostic is raised
